@@ -9,10 +9,10 @@ prop(
     stages=[
         dict(run="^TestPropDead$",
              quick=dict(checks=48000, shards=16, timeout=600, shrinktime="8s"),
-             thorough=dict(checks=2400000, shards=16, timeout=7200, env={"VERIF_PQ_DEPTH": 4})),
+             thorough=dict(checks=1600000, shards=16, timeout=7200, env={"VERIF_PQ_DEPTH": 4})),
         dict(run="^TestPropDeadDirected$",
              quick=dict(checks=64000, shards=16, timeout=600, shrinktime="8s"),
-             thorough=dict(checks=3200000, shards=16, timeout=7200)),
+             thorough=dict(checks=2400000, shards=16, timeout=7200)),
         dict(run="^TestPropConstFold$",
              quick=dict(checks=4000, shards=2, timeout=300, shrinktime="8s"),
              thorough=dict(checks=40000, shards=4, timeout=600)),
